@@ -210,6 +210,11 @@ func combineTypes(types []*Type) *Type {
 	combinedT := types[0]
 	for _, t := range types[1:] {
 		if combinedT.Equals(t) {
+			if t.Fixed {
+				// a non-literal element cannot be converted later on,
+				// so it fixes the combined type as well.
+				combinedT = t
+			}
 			continue
 		}
 		// types are not equal, ensure that composite types can be combined
